@@ -1,8 +1,10 @@
 //go:build verif
 
-// Assumed contracts on the Go standard library (DESIGN.md §3.2). Every block
+// Assumed contracts on the Go standard library (DESIGN.md 0C). Every block
 // here is TRUSTED: it is an assumption, listed in the evidence of each check
-// that uses it, and exercised by the conformance harness (check --conformance).
+// that uses it; the behavioural ones are exercised on every run by the bounded
+// conformance harness in /verif/conformance (DESIGN.md 0A), which can refute
+// but never prove them.
 package stdlibspec
 
 // ---------------------------------------------------------------------------
@@ -91,14 +93,8 @@ package stdlibspec
 //@   ensures m == sec && d >= 0 && d <= maxI64 - sec ==> result % sec == 0 && result >= 0 && result - d <= sec/2 && d - result <= sec/2
 //@   ensures m == sec && d >= 0 ==> result >= 0 && result >= d - sec/2
 //@   ensures m == sec && d < 0 ==> result <= 0
-// Duration.Seconds() converted to int: d / 1e9 for every d >= 0 (float64 holds
-// the quotient exactly below 2^53 seconds, which covers all of int64 ns).
-//@ spec func durSecs(d time.Duration) float64
-//@ spec func f2int(f float64) int
-//@ axiom durSecs-trunc: forall d time.Duration :: d >= 0 ==> f2int(durSecs(d)) == int(d / sec)
-//@ extern (time.Duration).Seconds(d)
-//@   pure
-//@   ensures result == durSecs(d)
+// (time.Duration).Seconds has no contract: float64 rounding makes int(d.Seconds()) differ from
+// d / 1e9 for large d with a fraction close to one second; the repository no longer calls it.
 
 // ---------------------------------------------------------------------------
 // strconv — decimal strings. dec64(s) is the value of an all-digit string
@@ -205,12 +201,16 @@ package stdlibspec
 //@   ensures result != nil
 //@ extern os.Getenv
 //@   pure
+// lower(s) = strings.ToLower(s). Only for ASCII strings does it keep the length and agree with
+// EqualFold: ToLower turns every invalid UTF-8 byte into U+FFFD (3 bytes) and maps e.g. the
+// Kelvin sign to 'k', and EqualFold uses Unicode simple folding ("\u017f" folds to "s").
+//@ spec func isASCII(s string) bool = forall i int :: 0 <= i && i < len(s) ==> s[i] < 128 # opaque
 //@ extern strings.EqualFold(s, t)
 //@   pure
-//@   ensures result == (lower(s) == lower(t))
+//@   ensures isASCII(s) && isASCII(t) ==> result == (lower(s) == lower(t))
 //@ spec func lower(s string) string
 //@ axiom lower-idem: forall s string :: lower(lower(s)) == lower(s)
-//@ axiom lower-len: forall s string :: len(lower(s)) == len(s)
+//@ axiom lower-len: forall s string :: isASCII(s) ==> len(lower(s)) == len(s)
 //@ extern strings.ToLower(s)
 //@   pure
 //@   ensures result == lower(s)
@@ -237,7 +237,7 @@ package stdlibspec
 //@ extern (*net/http.Request).Clone(r, ctx)
 //@   pure
 //@   fresh
-//@   ensures result != nil && result.Method == r.Method && result.URL != nil
+//@   ensures result != nil && result.Method == r.Method && (r.URL != nil ==> result.URL != nil)
 //@   ensures r.Header != nil ==> result.Header != nil && fresh(result.Header)
 //@   ensures r.Header == nil ==> result.Header == nil
 //@   ensures forall k string :: has(result.Header, k) == has(r.Header, k) && hget(result.Header, k) == hget(r.Header, k)
@@ -476,13 +476,13 @@ package stdlibspec
 //@ spec func b64stdOf(b []byte) string = b64std(bytesOf(b))
 //@ extern (*encoding/base64.Encoding).EncodeToString(enc, src)
 //@   pure
-//@   ensures b64Text(result)
+//@   ensures enc == base64.RawURLEncoding ==> b64Text(result)
 //@   ensures enc == base64.RawStdEncoding ==> result == b64stdOf(src)
 //@ extern path/filepath.Join(elem)
 //@   pure
 //@   requires forall j int :: 0 <= j && j < len(elem) ==> len(elem[j]) > 0
-//@   ensures (forall j int :: 0 <= j && j < len(elem) ==> sepFree(elem[j])) ==> pathLen(result) == len(elem) && (forall j int :: 0 <= j && j < len(elem) ==> pathPart(result, j) == elem[j])
-//@   ensures len(elem) > 0 && sepFree(elem[len(elem)-1]) ==> pathBase(result) == elem[len(elem)-1]
+//@   ensures (forall j int :: 0 <= j && j < len(elem) ==> sepFree(elem[j]) && elem[j] != "." && elem[j] != "..") ==> pathLen(result) == len(elem) && (forall j int :: 0 <= j && j < len(elem) ==> pathPart(result, j) == elem[j])
+//@   ensures len(elem) > 0 && sepFree(elem[len(elem)-1]) && elem[len(elem)-1] != "." && elem[len(elem)-1] != ".." ==> pathBase(result) == elem[len(elem)-1]
 //@ extern path/filepath.Dir(path)
 //@   pure
 //@   ensures len(result) > 0
@@ -508,10 +508,12 @@ package stdlibspec
 // Seal appends to dst: it may write into dst's backing array beyond len(dst) (when the capacity
 // allows) or return a new array; either way the first len(dst) bytes are dst's.
 //@ iface crypto/cipher.AEAD.Seal(g, dst, nonce, plaintext, additionalData)
+//@   requires len(additionalData) == 0
 //@   assigns elems(dst)
 //@   ensures bytesOf(result) == old(bytesOf(dst)) + sealed(g, old(bytesOf(nonce)), old(bytesOf(plaintext)))
 //@   ensures sameArray(result, dst) || fresh(result)
 //@ iface crypto/cipher.AEAD.Open(g, dst, nonce, ciphertext, additionalData)
+//@   requires len(additionalData) == 0
 //@   assigns elems(dst)
 //@   ensures result1 == nil && len(dst) == 0 ==> old(bytesOf(ciphertext)) == sealed(g, old(bytesOf(nonce)), bytesOf(result0))
 //@ extern io.ReadFull(r, buf)
